@@ -14,10 +14,23 @@
               curvature; fitted splines are smooth at the knots and natural ones have zero end
               curvature; a fit is linear in the ordinates; and the fit is the LEAST-SQUARES OPTIMUM:
               its residual is orthogonal to every cardinal spline of the fit grid (normal equations,
-              cubic natural, cubic periodic and linear spline).                                    *)
+              cubic natural, cubic periodic and linear spline).
+   "scale"    SCALE INVARIANCE with exact powers of two (multiplication by 2^k is exact in binary
+              floating point, so the scaled computation is the same computation): an instance may carry
+              an ordinate scale ys (y -> 2^ys y) or an abscissa scale xs (x -> 2^xs x); the harness feeds
+              the scaled numbers and converts the observations back (S / 2^ys, S' 2^xs / 2^ys), so that
+                  S[2^k y](x) = 2^k S[y](x),     S'[y; 2^m x](2^m x) = 2^-m S'[y](x)
+              become "scaled instance = base instance", k in {-60,-40,40}, m in {-20,20,30}; the
+              knot-continuity, derivative-of-value and extrapolation relations are evaluated on the
+              scaled instances as well.  All types, Interpolate and Fit, natural and periodic.  (Akima's
+              equality to the base instance is not asserted for k = -60: AkimaSpline::getSlope compares
+              slopes with the absolute tolerance 1e-15, the statement does not claim homogeneity for
+              Akima; its smoothness and derivative consistency are asserted for every scale.)
+              `probe` lists the one-sided difference that gives f'' at the second knot of every scaled
+              cubic instance: the harness requires some 0 < |f''| < 1e-12 among them (vacuity guard).   *)
 EXTENDS SplineRel, TLC, Json, IOUtils
 
-CONSTANTS NSet, GapsOf(_), YsOf(_), Y2Of(_), OffsOf(_), MulSet, Q, Emit
+CONSTANTS NSet, GapsOf(_), YsOf(_), Y2Of(_), OffsOf(_), MulSet, ScaleThin, Q, Emit
 VARIABLES c, ph
 vars == <<c, ph>>
 
@@ -27,7 +40,9 @@ NSlices == IF "C12_NSLICES" \in DOMAIN IOEnv THEN atoi(IOEnv.C12_NSLICES) ELSE 1
 RECURSIVE SumTo(_, _)
 SumTo(f, n) == IF n = 0 THEN 0 ELSE f[n] + SumTo(f, n - 1)
 Knots(o, g) == [i \in 1..(Len(g) + 1) |-> Q * (o + SumTo(g, i - 1))]
-Hash(n, g, o, y) == (SumTo([i \in 1..n |-> i * y[i]], n) + 3 * SumTo(g, n - 1) + o) % NSlices
+HashRaw(n, g, o, y) == SumTo([i \in 1..n |-> i * y[i]], n) + 3 * SumTo(g, n - 1) + o
+Hash(n, g, o, y) == HashRaw(n, g, o, y) % NSlices
+Hash2(n, g, y) == SumTo([i \in 1..n |-> (i * i + 1) * y[i]], n) + SumTo(g, n - 1)
 
 Init == /\ ph = 0
         /\ \E n \in NSet : \E g \in [1..(n - 1) -> GapsOf(n)], o \in OffsOf(n), y \in [1..n -> YsOf(n)] :
@@ -35,6 +50,9 @@ Init == /\ ph = 0
               /\ \/ \E z \in Y2Of(n), m \in MulSet : c = [fam |-> "linear", K |-> Knots(o, g), Y |-> y, Z |-> z, m |-> m]
                  \/ c = [fam |-> "fitspace", K |-> Knots(o, g), Y |-> y]
                  \/ n >= 3 /\ c = [fam |-> "fitopt", K |-> Knots(o, g), Y |-> y]
+                 \* 1/ScaleThin of the data sets, each with one of the six scales
+                 \/ /\ Hash2(n, g, y) % ScaleThin = 0
+                    /\ c = [fam |-> "scale", K |-> Knots(o, g), Y |-> y, v |-> ((Hash2(n, g, y) \div ScaleThin) % 6) + 1]
 Next == ph = 0 /\ ph' = 1 /\ UNCHANGED c
 Spec == Init /\ [][Next]_vars
 
@@ -110,6 +128,44 @@ PBil == [k \in 1..N |-> NormalEquation("least-squares:normal-equation", 4, 7 + k
         \o [k \in 1..N |-> NormalEquation("least-squares:normal-equation", 7, 7 + N + k, QP, PerY)]
         \o [k \in 1..(N - 1) |-> NormalEquation("least-squares:normal-equation", 1, 7 + 2 * N + k, QP, PerY)]
 
+\* ---- scale invariance ---------------------------------------------------------------------------
+ScaleOf(v) == IF v = 1 THEN <<-60, 0>> ELSE IF v = 2 THEN <<-40, 0>> ELSE IF v = 3 THEN <<40, 0>>
+              ELSE IF v = 4 THEN <<0, -20>> ELSE IF v = 5 THEN <<0, 20>> ELSE <<0, 30>>
+\* configurations <<type, bc, op, piece degree>>; interpolation of (K, Y), fits of (QP, PerY) on grid K
+SCfgs == <<<<"lin", 0, "interp", 1>>>>
+         \o (IF N >= 3 THEN <<<<"cubic", 0, "interp", 3>>>> ELSE <<>>)
+         \o (IF N >= 4 THEN <<<<"akima", 0, "interp", 3>>>> ELSE <<>>)
+         \o (IF N >= 3 /\ Y[1] = Y[N] THEN <<<<"cubic", 1, "interp", 3>>>> ELSE <<>>)
+         \o (IF N >= 4 /\ Y[1] = Y[N] THEN <<<<"akima", 1, "interp", 3>>>> ELSE <<>>)
+         \o <<<<"lin", 0, "fit", 1>>, <<"cubic", 0, "fit", 3>>, <<"cubic", 1, "fit", 3>>>>
+SInst(cf, ys, xs) == IF cf[3] = "interp"
+                     THEN [t |-> cf[1], b |-> cf[2], api |-> "e", op |-> "interp", d |-> 1, ys |-> ys, xs |-> xs]
+                     \* Fit: abscissa scale capped at 2^-4 .. 2^4.  The constrained QR of the fit works on unscaled
+                     \* unknowns (f, f''), whose matrix columns differ by h^2; its error grows like 2^(2|m|) eps
+                     \* (measured: natural fit 3e-6 at 2^20, garbage at 2^30; periodic fit on 3 nodes 2e-9 at 2^-10,
+                     \* 3e-3 at 2^-20, where the slope row and the smoothing row share their f-part) - conditioning
+                     \* in units far from any table VOTCA handles, not a wrong branch; not asserted.
+                     ELSE [t |-> cf[1], b |-> cf[2], api |-> "i", op |-> "fit", d |-> 2, g |-> K, ys |-> ys,
+                           xs |-> IF xs > 4 THEN 4 ELSE IF xs < -4 THEN -4 ELSE xs]
+\* instance 2i-1 = configuration i unscaled, 2i = scaled
+SInsts == LET sc == ScaleOf(c.v) IN
+  [j \in 1..(2 * Len(SCfgs)) |-> IF j % 2 = 1 THEN SInst(SCfgs[(j + 1) \div 2], 0, 0)
+                                  ELSE SInst(SCfgs[j \div 2], sc[1], sc[2])]
+SRels == LET sc == ScaleOf(c.v)
+             what == IF sc[1] # 0 THEN "scale-invariance:ordinates" ELSE "scale-invariance:abscissae"
+         IN Flatten([i \in 1..Len(SCfgs) |->
+              LET cf == SCfgs[i] IN
+              (IF cf[1] = "akima" /\ sc[1] = -60 THEN <<>> ELSE SameAt(what, 2 * i, 2 * i - 1, AllPts))
+              \o PieceRelations(2 * i, K, cf[4], cf[1] # "lin")
+              \o ExtrapRelations(2 * i, K, cf[4])])
+\* f''(K[2]) of the scaled cubic instances from the right: (-3 q0 + 4 q1 - q2) / (2 d)
+SProbe == Flatten([i \in 1..Len(SCfgs) |->
+            IF SCfgs[i][1] = "cubic"
+            THEN LET d == Quarter(K, 1) IN
+                 <<Relation("curvature-probe", 2 * i,
+                            <<Term(-3, 2 * i, 1, K[2]), Term(4, 2 * i, 1, K[2] + d), Term(-1, 2 * i, 1, K[2] + 2 * d)>>)>>
+            ELSE <<>>])
+
 Theorems == ph = 1 =>
   /\ IsGrid(K)
   /\ c.fam = "fitspace" =>
@@ -130,6 +186,9 @@ Theorems == ph = 1 =>
 Vector == (Emit /\ ph = 1) =>
   PrintT(ToJson(
     IF c.fam = "linear" THEN [fam |-> "linear", data |-> LData, inst |-> LInsts, exact |-> <<>>, rel |-> CompactRels(LRels)]
+    ELSE IF c.fam = "scale" THEN [fam |-> "scale", data |-> <<[k |-> K, y |-> Y], [k |-> QP, y |-> PerY]>>,
+                                  inst |-> SInsts, exact |-> <<>>, rel |-> CompactRels(SRels),
+                                  probe |-> CompactRels(SProbe)]
     ELSE IF c.fam = "fitspace" THEN [fam |-> "fitspace", data |-> <<[k |-> K, y |-> Y]>>, inst |-> FInsts,
                                      exact |-> <<>>, rel |-> CompactRels(FRels)]
     ELSE [fam |-> "fitopt", data |-> PDataAll, inst |-> PInsts, exact |-> <<>>, rel |-> CompactRels(PRels),
